@@ -11,7 +11,7 @@ class _RL(dict):
 UNIT_RLIMIT = _RL({"div_small": 80, "mul_redc": 80})      # unit -> --rlimit (Verus default is 10; 5x head-room over the measured maximum)
 UNIT_TIMEOUT = {"knuth": 1500, "addmul": 900, "mul_redc": 1200}     # unit -> seconds
 UNIT_EXPECT = {       # unit -> minimum number of verified functions on the unchanged tree (vacuity guard)
-    "core": 31, "add": 29, "kernels": 79, "addmul": 71, "addmul_n": 73, "mul": 51, "divd": 45, "div_small": 235, "knuth": 145, "mul_redc": 118, "basics": 22, "pow": 38, "divw": 54, "modular": 51, "spigot": 44, "gcd": 21, "forward": 57, "invring": 36, "bitlen": 70, "shifts": 121, "recip_table": 2,
+    "core": 31, "add": 29, "kernels": 79, "addmul": 71, "addmul_n": 73, "mul": 51, "divd": 45, "div_small": 235, "knuth": 145, "mul_redc": 118, "basics": 22, "pow": 38, "divw": 54, "modular": 51, "spigot": 44, "gcd": 21, "forward": 57, "invring": 36, "bitlen": 70, "shifts": 121, "recip_table": 2, "gcdext": 64,
 }
 
 COMMON_TRUST = [
@@ -288,7 +288,7 @@ PROPS = {
         level_note="ASSUMED: mul_mod's contract (= a*b mod m; its body reinterprets [[u64;2];LIMBS] through a raw pointer, outside Verus; the addmul and div kernels it calls are under contract); operators >=, %=, -=, >>= (C20); "
                    "NOT decided by proof: inv_mod (Lehmer-based; Kani at 4/8 bits only)",
         technique="deductive contracts (Verus, all widths) + Kani at tiny widths for mul_mod / inv_mod",
-        units=["core", "basics", "add", "modular"],
+        units=["core", "basics", "add", "modular", "gcdext"],
         kani=dict(features=None, quick=hs("c10", None, r"gcd|lcm"), thorough=hs("c10", None, r"gcd|lcm"), bounds="tiny widths (4-8 bits), see kani/src/c10.rs"),
         explanation="postconditions over val() with vstd's modular-arithmetic lemma library",
         trusted=COMMON_TRUST,
@@ -301,7 +301,7 @@ PROPS = {
         level_note="the Lehmer matrix construction (from_u64_prefix, from_u128_prefix, from: Jebelean's exactness conditions over up to 46 symbolic u64 divisions) is ASSUMED, not derived - a change inside matrix.rs is noticed only "
                    "by the tiny-width Kani harnesses; gcd_extended's and inv_mod's sign bookkeeping and lcm are Kani-only (4-8 bits)",
         technique="deductive contract for the loop (Verus) relative to an assumed matrix contract + Kani at tiny widths",
-        units=["core", "gcd"],
+        units=["core", "gcd", "gcdext"],
         kani=dict(features=None, quick=hs("c10", r"gcd|lcm"), thorough=hs("c10", r"gcd|lcm"), bounds="4-8 bits"),
         explanation="invariant gcd(a, b) = gcd(a0, b0), a >= b; decreases b",
         trusted=COMMON_TRUST,
